@@ -88,14 +88,42 @@ def first_use(kind, cname, tkey):
     return out
 
 
+ATTR_FIELDS = ('_name', '_ref', '_type', '_is_required')
+
+
+def attr_obj_value(cls, idx, field):
+    """memo field of the idx-th shared XSDAttribute object of a class-level attribute table (None while the table does not exist)"""
+    lst = cls.__dict__.get('_XSD_ATTRIBUTES')
+    if not isinstance(lst, list) or idx >= len(lst):
+        return None
+    return struct(lst[idx].__dict__.get(field))
+
+
 def solo(args):
     kind, cname, tkey = args
     sh = Shared()
     slots = class_slots(sh)
     before = {k: struct(getattr(c, a)) for k, (c, a) in slots.items()}
+    abefore = {}
+    for c in sh.classes:
+        lst = c.__dict__.get('_XSD_ATTRIBUTES')
+        if isinstance(lst, list):
+            for i in range(len(lst)):
+                for f in ATTR_FIELDS:
+                    abefore[('@attr', c.__name__, i, f)] = attr_obj_value(c, i, f)
     first_use(kind, cname, tkey)
     after = {k: struct(getattr(c, a)) for k, (c, a) in slots.items()}
     written = {k: (before[k], after[k]) for k in slots if before[k] != after[k]}
+    # memo fields of the shared XSDAttribute objects (lazily filled, shared between threads like the tables themselves)
+    for c in sh.classes:
+        lst = c.__dict__.get('_XSD_ATTRIBUTES')
+        if isinstance(lst, list):
+            for i in range(len(lst)):
+                for f in ATTR_FIELDS:
+                    k = ('@attr', c.__name__, i, f)
+                    v = attr_obj_value(c, i, f)
+                    if abefore.get(k) != v:
+                        written[k] = (abefore.get(k), v)
     return written
 
 
@@ -104,6 +132,8 @@ def traced(args):
     sh = Shared()
     slots = class_slots(sh)
     watch = [(k, slots[k], written[k][0], written[k][1]) for k in written if k in slots]
+    by_name = {c.__name__: c for c in sh.classes}
+    awatch = [(k, by_name[k[1]], k[2], k[3], written[k][0], written[k][1]) for k in written if k[0] == '@attr' and k[1] in by_name]
     state = {'bad': None, 'lines': 0}
     repo = os.environ.get('VERIF_REPO', '/repo')
 
@@ -112,6 +142,11 @@ def traced(args):
             v = struct(getattr(c, a))
             if v != unset and v != final:
                 state['bad'] = (k, frame.f_code.co_filename, frame.f_lineno, str(v)[:120], str(final)[:120])
+                return
+        for k, c, i, f, unset, final in awatch:
+            v = attr_obj_value(c, i, f)
+            if v is not None and v != unset and v != final:
+                state['bad'] = ((f'{k[1]}._XSD_ATTRIBUTES[{i}]', f), frame.f_code.co_filename, frame.f_lineno, str(v)[:120], str(final)[:120])
                 return
 
     def tracer(frame, event, arg):
@@ -141,7 +176,7 @@ def task(args):
         written = p.apply(solo, ((kind, cname, tkey),))
     with ctx.Pool(1, maxtasksperchild=1) as p:
         st = p.apply(traced, ((kind, cname, tkey, written),))
-    return dict(kind=kind, cname=cname, tkey=tkey, slots=sorted(f'{a}.{b}' for a, b in written), lines=st['lines'], bad=st['bad'])
+    return dict(kind=kind, cname=cname, tkey=tkey, slots=sorted('.'.join(map(str, k)) for k in written), lines=st['lines'], bad=st['bad'])
 
 
 REPLAY = '''import threading
